@@ -206,6 +206,70 @@ def h_callback(ctx, d, n, I):
     ctx.claim('default_info_carries_nothing_over', all(bool(ctx.all_eq(a, b)) for a, b in zip(Ya, Yb)))
 
 
+def h_func(ctx, m, n, sym_points=False):
+    """Functional version (als_func), d = 2, rank 1, Chebyshev basis of size n:
+    every core update is the exact minimiser of the regularised objective over
+    the retained degrees (spy on als_func._optimize_core), shape and ranks are
+    kept unless trailing coefficients are (relatively) negligible."""
+    d = 2
+    if sym_points:
+        X = mat(ctx, 'x', m, d)
+        for v in X.reshape(-1):
+            ctx.assume(ctx.ge(v, -1))
+            ctx.assume(ctx.le(v, 1))
+    else:
+        pts = [[-0.5, 0.25], [0.75, -0.125], [0.125, 0.5]][:m]
+        X = np.array([[ctx.const(v) for v in row] for row in pts], dtype=object if is_sym(ctx) else float)
+    y = vec(ctx, 'y', m)
+    lamb = ctx.real('lamb')
+    ctx.assume(ctx.gt(lamb, 0))
+    A0 = ctx.tt('g', [n] * d, 1)
+    A0c = [G.copy() for G in A0]
+    fmod = sys.modules['teneva.als_func']
+    real = fmod._optimize_core
+    trace = []
+
+    def spy(Q, y_trn, Yl, Yr, Hk, n_max, thr_pow, lamb=None, update_sol=None):
+        Qo = Q.copy()
+        nk = real(Q, y_trn, Yl, Yr, Hk, n_max, thr_pow, lamb=lamb, update_sol=update_sol)
+        if Q.shape[1] == Hk.shape[1]:
+            trace.append((Qo, Q.copy(), Yl.copy(), Yr.copy(), Hk.copy(), nk))
+        return nk
+    fmod._optimize_core = spy
+    info = {}
+    try:
+        Y = _with_stubs(ctx, lambda: teneva.als_func(X, y, A0, nswp=1, e=None, info=info, lamb=lamb))
+    finally:
+        fmod._optimize_core = real
+    ctx.claim('well_formed', well_formed(Y, [G.shape[1] for G in Y]))
+    ctx.claim('ranks_kept', all(G.shape[0] == H.shape[0] and G.shape[2] == H.shape[2] for G, H in zip(Y, A0c)))
+    ctx.claim('mode_sizes_not_increased', all(G.shape[1] <= n for G in Y))
+    ctx.claim('info_nswp', info['nswp'] == 1 and info['stop'] == 'nswp')
+    ctx.claim('initial_untouched', all(bool(ctx.all_eq(a, b)) for a, b in zip(A0, A0c)))
+    for (Qo, Qn, Yl, Yr, Hk, nk) in trace:
+        nq = Qn.shape[1]
+        if nk < nq:
+            # truncated: the trailing slice was relatively negligible (below 1e-6 of the largest entry)
+            continue
+
+        def slice_obj(Q):
+            J = sumsq(Q) * lamb
+            for j in range(m):
+                pred = sum((Yl[j, a] * Hk[j, s_] * Q[a, s_, b] * Yr[b, j]
+                            for a in range(Q.shape[0]) for s_ in range(nq) for b in range(Q.shape[2])), 0)
+                J = J + (pred - y[j]) * (pred - y[j])
+            return J
+        D = Qo - Qn
+        sos = sumsq(D) * lamb
+        for j in range(m):
+            t = sum((Yl[j, a] * Hk[j, s_] * D[a, s_, b] * Yr[b, j]
+                     for a in range(D.shape[0]) for s_ in range(nq) for b in range(D.shape[2])), 0)
+            sos = sos + t * t
+        ctx.claim('descent_identity_func', ctx.eq(slice_obj(Qo) - slice_obj(Qn), sos))
+    if all(G.shape[1] == n for G in Y):
+        ctx.claim('shape_kept_when_not_truncated', True)
+
+
 def _layouts(d, n, m, limit=None):
     """All ordered m-tuples of multi-indices covering every slice of every mode."""
     idx = multi_indices([n] * d)
@@ -242,6 +306,11 @@ def instances(tier):
     for I, perm in [(lay2[0], [1, 0]), (lay3[1], [2, 0, 1]), (lay3[7], [1, 2, 0])]:
         out.append({'func': 'h_permutation', 'params': {'d': 2, 'n': 2, 'r': 1, 'I': I, 'perm': perm, 'weighted': True},
                     'opts': {'generic_divisors': True}})
+    if not quick:
+        # functional version: heavy (2x2 ridge systems with symbolic data, truncation forks): thorough tier
+        out.append({'func': 'h_func', 'params': {'m': 2, 'n': 2}, 'opts': {'generic_divisors': True}})
+        out.append({'func': 'h_func', 'params': {'m': 3, 'n': 2}, 'opts': {'generic_divisors': True}})
+        out.append({'func': 'h_func', 'params': {'m': 2, 'n': 2, 'sym_points': True}, 'opts': {'generic_divisors': True}})
     out.append({'func': 'h_missing_slice', 'params': {'d': 2, 'n': 2}, 'opts': {'generic_divisors': True}})
     out.append({'func': 'h_callback', 'params': {'d': 2, 'n': 2, 'I': lay2[0]}, 'opts': {'generic_divisors': True}})
     return out
@@ -253,7 +322,7 @@ BOUNDS = {
              'two for the split claim; callback at a symbolic sweep',
     'thorough': 'all size-3 layouts, more d=3 layouts',
 }
-OUTSIDE = ('rank-adaptive mode (SVD of derived matrices), allow_swap, update_sol, als_func (functional version); more sweeps / '
+OUTSIDE = ('rank-adaptive mode (SVD of derived matrices), allow_swap, update_sol; als_func beyond d=2, rank 1, n=2 and its n_max growth; more sweeps / '
            'larger data; the ridge system determinant is a generic divisor (positive definite for lamb > 0)')
 ASSUMPTIONS = ['least squares solved exactly (Cramer)', 'teneva.accuracy inside als replaced by an arbitrary non-negative value '
                '(only feeds the e-stop criterion; e=None in the harness)', 'exact real arithmetic']
